@@ -437,7 +437,17 @@ size_t varintAdaptiveEncode(uint8_t *dst, const uint64_t *values, size_t count,
         varintAdaptiveSelectEncoding(&stats);
 
     /* Encode with selected encoding */
-    return varintAdaptiveEncodeWith(dst, values, count, encodingType, meta);
+    size_t written =
+        varintAdaptiveEncodeWith(dst, values, count, encodingType, meta);
+    if (written == 0 && dst && values &&
+        encodingType != VARINT_ADAPTIVE_TAGGED) {
+        /* The selected encoder could not run (out of memory, or more
+         * distinct values than the dictionary format allows): TAGGED needs
+         * no memory and accepts every input */
+        written = varintAdaptiveEncodeWith(dst, values, count,
+                                           VARINT_ADAPTIVE_TAGGED, meta);
+    }
+    return written;
 }
 
 /* ====================================================================
